@@ -1,7 +1,7 @@
 #!/venv/bin/python
 """Regression over the seeded changes: applies every seeded/<name>/patch.diff to /repo in turn (tools/try_patch.py, which
 restores /repo afterwards), runs the quick check of the property the change was written against and reports whether it
-raised a VIOLATION.  Usage: tools/regress_seeded.py [name-prefix ...]      (takes about an hour for all of them)
+raised a VIOLATION.  Usage: [TRY_SRC=<scratch worktree>] tools/regress_seeded.py [name-prefix ...]      (takes about two hours for all of them)
 
 A patch that no longer applies (a later `fix:` commit changed the same lines) is reported as NOAPPLY, not as a miss."""
 import os, subprocess, sys
@@ -13,7 +13,7 @@ for n in sorted(os.listdir(os.path.join(HERE, 'seeded'))):
         continue
     patch = os.path.join(HERE, 'seeded', n, 'patch.diff')
     prop = n.split('-')[0]
-    if subprocess.run(['git', '-C', '/repo', 'apply', '--check', patch], capture_output=True).returncode:
+    if subprocess.run(['git', '-C', os.environ.get('TRY_SRC') or '/repo', 'apply', '--check', patch], capture_output=True).returncode:
         print('%-80s NOAPPLY' % n, flush=True)
         continue
     r = subprocess.run([os.path.join(HERE, 'tools', 'try_patch.py'), patch, prop], capture_output=True, text=True)
